@@ -180,20 +180,75 @@ theorem sat_incr {h a σ n k} (s : Sat h a σ) :
       · exact absurd hm em
       · exact s.2 m hm
 
+def SatO (h : Nat → Nat) (o : Option AS) (σ : St) : Prop := ∃ a, o = some a ∧ Sat h a σ
+
+/-- what the abstract result promises about a concrete outcome -/
+def Good (h : Nat → Nat) (R : AR) : Res → Prop
+  | .ok σ => SatO h R.norm σ
+  | .ret σ .tt => SatO h R.rt σ
+  | .ret σ .ff => SatO h R.rf σ
+  | .ret σ .unk => SatO h R.ru σ
+  | .fail => False
+
+theorem joinB_sound_l {h} {x y : Option AS} {σ} (s : SatO h x σ) : SatO h (joinB x y) σ := by
+  obtain ⟨a, rfl, sa⟩ := s
+  cases y with
+  | none => exact ⟨a, rfl, sa⟩
+  | some b => exact ⟨_, rfl, join_sound_l sa⟩
+
+theorem joinB_sound_r {h} {x y : Option AS} {σ} (s : SatO h y σ) : SatO h (joinB x y) σ := by
+  obtain ⟨b, rfl, sb⟩ := s
+  cases x with
+  | none => exact ⟨b, rfl, sb⟩
+  | some a => exact ⟨_, rfl, join_sound_r sb⟩
+
+theorem good_join_l {h} {R1 R2 : AR} {r} (g : Good h R1 r) : Good h (R1.join R2) r := by
+  cases r with
+  | ok σ => exact joinB_sound_l g
+  | ret σ v => cases v <;> exact joinB_sound_l g
+  | fail => exact g
+
+theorem good_join_r {h} {R1 R2 : AR} {r} (g : Good h R2 r) : Good h (R1.join R2) r := by
+  cases r with
+  | ok σ => exact joinB_sound_r g
+  | ret σ v => cases v <;> exact joinB_sound_r g
+  | fail => exact g
+
+theorem good_of {h} {a : AS} {σ} (s : Sat h a σ) : Good h (.of a) (.ok σ) := ⟨a, rfl, s⟩
+
+theorem good_bot_false {h r} (g : Good h AR.bot r) : False := by
+  cases r with
+  | ok σ => obtain ⟨_, e, _⟩ := g; cases e
+  | ret σ v => cases v <;> (obtain ⟨_, e, _⟩ := g; cases e)
+  | fail => exact g
+
+theorem leO_sound {h} {o : Option AS} {c : AS} {σ} (l : leO o c = true) (s : SatO h o σ) : Sat h c σ := by
+  obtain ⟨a, rfl, sa⟩ := s
+  exact le_sound l sa
+
+/-- continuation of an inlined call: from a state satisfying `o`, running `t` is covered by
+    the abstract result computed for `t` -/
+theorem cont_sound {h} {t : Stm} {o : Option AS} {Rt : AR} {σ r}
+    (ih : ∀ (a : AS) (R : AR), step t a = some R → ∀ σ r, Sat h a σ → Exec h t σ r → Good h R r)
+    (hs : contO o (step t) = some Rt)
+    (so : SatO h o σ) (ex : Exec h t σ r) : Good h Rt r := by
+  obtain ⟨a, rfl, sa⟩ := so
+  exact ih a Rt hs σ r sa ex
+
 theorem step_sound (h : Nat → Nat) :
-    ∀ (s : Stm) (a a' : AS), step s a = some a' →
-      ∀ σ r, Sat h a σ → Exec h s σ r → ∃ σ', r = .ok σ' ∧ Sat h a' σ' := by
+    ∀ (s : Stm) (a : AS) (R : AR), step s a = some R →
+      ∀ σ r, Sat h a σ → Exec h s σ r → Good h R r := by
   intro s
   induction s with
   | skip =>
-    intro a a' hs σ r sa ex
-    cases ex; simp only [step, Option.some.injEq] at hs; subst hs; exact ⟨_, rfl, sa⟩
+    intro a R hs σ r sa ex
+    cases ex; simp only [step, Option.some.injEq] at hs; subst hs; exact good_of sa
   | write x =>
-    intro a a' hs σ r sa ex
+    intro a R hs σ r sa ex
     cases ex with
     | write _ _ c =>
       simp only [step, Option.some.injEq] at hs; subst hs
-      refine ⟨_, rfl, sat_setObj sa ?_⟩
+      refine good_of (sat_setObj sa ?_)
       have sx := sa.1 x
       cases e : a.get x with
       | cleared => simp only [e, satV] at *; exact sx
@@ -201,62 +256,83 @@ theorem step_sound (h : Nat → Nat) :
       | guarded _ => exact weak_sound sa _
       | dirty => exact weak_sound sa _
   | reset x k =>
-    intro a a' hs σ r sa ex
+    intro a R hs σ r sa ex
     cases ex with
-    | resetNone => simp only [step, Option.some.injEq] at hs; subst hs; exact ⟨_, rfl, sa⟩
+    | resetNone => simp only [step, Option.some.injEq] at hs; subst hs; exact good_of sa
     | resetClear =>
       simp only [step, Option.some.injEq] at hs; subst hs
-      exact ⟨_, rfl, sat_setObj sa (by simp [satV])⟩
+      exact good_of (sat_setObj sa (by simp [satV]))
     | resetRecompute =>
       simp only [step, Option.some.injEq] at hs; subst hs
-      exact ⟨_, rfl, sat_setObj sa (by simp [satV, Obj.inv])⟩
+      exact good_of (sat_setObj sa (by simp [satV, Obj.inv]))
   | sigOther x =>
-    intro a a' hs σ r sa ex
+    intro a R hs σ r sa ex
     cases ex
     simp only [step, Option.some.injEq] at hs; subst hs
-    exact ⟨_, rfl, sat_setObj sa (weak_sound sa _)⟩
+    exact good_of (sat_setObj sa (weak_sound sa _))
   | sigCall x =>
-    intro a a' hs σ r sa ex
+    intro a R hs σ r sa ex
     simp only [step, Option.some.injEq] at hs; subst hs
     have sx := sa.1 x
     cases ex with
     | sigCallFill _ _ hn =>
-      refine ⟨_, rfl, sat_setObj sa ?_⟩
+      refine good_of (sat_setObj sa ?_)
       cases e : a.get x <;> simp [satV, Obj.inv]
     | sigCallKeep =>
-      refine ⟨σ, rfl, ?_⟩
       have : σ = σ.setObj x (σ.obj x) := by
         cases σ; simp only [St.setObj, St.mk.injEq, and_true]; funext y; by_cases e : y = x <;> simp [e]
       rw [this]
-      refine sat_setObj sa ?_
+      refine good_of (sat_setObj sa ?_)
       cases e : a.get x with
       | cleared => simp only [e, satV] at *; exact inv_of_none sx
       | ok => simp only [e] at sx; exact sx
       | guarded n => simp only [e] at sx; exact sx
       | dirty => trivial
   | fresh x =>
-    intro a a' hs σ r sa ex
+    intro a R hs σ r sa ex
     cases ex with
     | fresh _ _ o ho =>
       simp only [step, Option.some.injEq] at hs; subst hs
-      exact ⟨_, rfl, sat_setObj sa ho⟩
+      exact good_of (sat_setObj sa ho)
+  | construct x =>
+    intro a R hs σ r sa ex
+    cases ex with
+    | construct _ _ o ho =>
+      simp only [step, Option.some.injEq] at hs; subst hs
+      exact good_of (sat_setObj sa ho)
+  | retc xs =>
+    intro a R hs σ r sa ex
+    simp only [step] at hs
+    split at hs
+    · next hc =>
+      simp only [Option.some.injEq] at hs; subst hs
+      cases ex with
+      | retcOk => exact ⟨a, rfl, sa⟩
+      | retcFail _ _ hne =>
+        exfalso; apply hne
+        intro x hx
+        simp only [List.all_eq_true, beq_iff_eq] at hc
+        have sx := sa.1 x
+        simp only [hc x hx, satV] at sx
+        exact sx
+    · simp at hs
   | copy x y =>
-    intro a a' hs σ r sa ex
+    intro a R hs σ r sa ex
     cases ex
     simp only [step, Option.some.injEq] at hs; subst hs
-    exact ⟨_, rfl, sat_setObj sa (sa.1 y)⟩
+    exact good_of (sat_setObj sa (sa.1 y))
   | incr n =>
-    intro a a' hs σ r sa ex
+    intro a R hs σ r sa ex
     cases ex with
     | incr _ _ k =>
       simp only [step, Option.some.injEq] at hs; subst hs
-      exact ⟨_, rfl, sat_incr sa⟩
+      exact good_of (sat_incr sa)
   | kill n =>
-    intro a a' hs σ r sa ex
+    intro a R hs σ r sa ex
     cases ex with
     | kill _ _ v =>
       simp only [step, Option.some.injEq] at hs; subst hs
-      refine ⟨_, rfl, fun x => ?_, fun m hm => ?_⟩
+      refine good_of ⟨fun x => ?_, fun m hm => ?_⟩
       · rw [get_mapVals]
         have sx := sa.1 x
         unfold AS.get at sx
@@ -279,12 +355,12 @@ theorem step_sound (h : Nat → Nat) :
         simp only [St.setCtr, hm.2, if_false]
         exact sa.2 m hm.1
   | countedWrite x n =>
-    intro a a' hs σ r sa ex
+    intro a R hs σ r sa ex
     simp only [step, Option.some.injEq] at hs; subst hs
     cases ex with
-    | countedNone => exact ⟨_, rfl, join_sound_l sa⟩
+    | countedNone => exact good_of (join_sound_l sa)
     | countedSome _ _ _ c k =>
-      refine ⟨_, rfl, join_sound_r ?_⟩
+      refine good_of (join_sound_r ?_)
       have s1 : Sat h (a.set x (match a.get x with | .cleared => .cleared | _ => .dirty))
           (σ.setObj x { σ.obj x with content := c }) := by
         refine sat_setObj sa ?_
@@ -292,7 +368,7 @@ theorem step_sound (h : Nat → Nat) :
         cases e2 : a.get x <;> simp only [e2, satV] at * <;> first | trivial | exact sx
       exact sat_incr (n := n) (k := k) s1
   | handout x =>
-    intro a a' hs σ r sa ex
+    intro a R hs σ r sa ex
     simp only [step] at hs
     split at hs
     · next hc =>
@@ -300,66 +376,114 @@ theorem step_sound (h : Nat → Nat) :
       have sx := sa.1 x
       simp only [hc, satV] at sx
       cases ex with
-      | handoutOk => exact ⟨_, rfl, sa⟩
+      | handoutOk => exact good_of sa
       | handoutFail _ _ hne => exact absurd sx hne
     · simp at hs
-  | ret xs =>
-    intro a a' hs σ r sa ex
+  | ret xs v =>
+    intro a R hs σ r sa ex
     simp only [step] at hs
     split at hs
     · next hc =>
       simp only [Option.some.injEq] at hs; subst hs
       cases ex with
-      | retOk => exact ⟨_, rfl, sa⟩
-      | retFail _ _ hne =>
+      | retOk => cases v <;> exact ⟨a, rfl, sa⟩
+      | retFail _ _ _ hne =>
         exfalso; apply hne
         intro x hx
         simp only [List.all_eq_true] at hc
         exact leV_sound (v := .ok) (hc x hx) (sa.1 x)
     · simp at hs
+  | call b t e ihb iht ihe =>
+    intro a R hs σ r sa ex
+    simp only [step] at hs
+    cases eb : step b a with
+    | none => simp [eb] at hs
+    | some Rb =>
+      simp only [eb] at hs
+      cases et : contO (joinB Rb.rt (joinB Rb.ru Rb.norm)) (step t) with
+      | none => simp [et] at hs
+      | some R1 =>
+        cases ee : contO (joinB Rb.rf (joinB Rb.ru Rb.norm)) (step e) with
+        | none => simp [et, ee] at hs
+        | some R2 =>
+          simp only [et, ee, Option.some.injEq] at hs; subst hs
+          cases ex with
+          | callFail _ _ _ _ ef => exact (ihb a Rb eb σ _ sa ef).elim
+          | callOkT _ _ _ _ σ' _ e1 e2 =>
+            have g := ihb a Rb eb σ _ sa e1
+            exact good_join_l (cont_sound iht et (joinB_sound_r (joinB_sound_r g)) e2)
+          | callOkE _ _ _ _ σ' _ e1 e2 =>
+            have g := ihb a Rb eb σ _ sa e1
+            exact good_join_r (cont_sound ihe ee (joinB_sound_r (joinB_sound_r g)) e2)
+          | callRetT _ _ _ _ σ' _ e1 e2 =>
+            have g := ihb a Rb eb σ _ sa e1
+            exact good_join_l (cont_sound iht et (joinB_sound_l g) e2)
+          | callRetF _ _ _ _ σ' _ e1 e2 =>
+            have g := ihb a Rb eb σ _ sa e1
+            exact good_join_r (cont_sound ihe ee (joinB_sound_l g) e2)
+          | callRetUT _ _ _ _ σ' _ e1 e2 =>
+            have g := ihb a Rb eb σ _ sa e1
+            exact good_join_l (cont_sound iht et (joinB_sound_r (joinB_sound_l g)) e2)
+          | callRetUE _ _ _ _ σ' _ e1 e2 =>
+            have g := ihb a Rb eb σ _ sa e1
+            exact good_join_r (cont_sound ihe ee (joinB_sound_r (joinB_sound_l g)) e2)
   | seq s t ihs iht =>
-    intro a a' hs σ r sa ex
+    intro a R hs σ r sa ex
     simp only [step] at hs
     cases e : step s a with
     | none => simp [e] at hs
-    | some b =>
+    | some R1 =>
       simp only [e] at hs
       cases ex with
-      | seqFail _ _ _ ef =>
-        obtain ⟨_, h1, _⟩ := ihs a b e σ _ sa ef
-        cases h1
+      | seqFail _ _ _ ef => exact (ihs a R1 e σ _ sa ef).elim
+      | seqRet _ _ _ σ' v e1 =>
+        have g := ihs a R1 e σ _ sa e1
+        cases en : R1.norm with
+        | none => simp only [en, Option.some.injEq] at hs; subst hs; exact g
+        | some b =>
+          simp only [en] at hs
+          cases e2 : step t b with
+          | none => simp [e2] at hs
+          | some R2 =>
+            simp only [e2, Option.some.injEq] at hs; subst hs
+            cases v <;> exact joinB_sound_l g
       | seqOk _ _ _ σ' _ e1 e2 =>
-        obtain ⟨σ2, h1, s1⟩ := ihs a b e σ _ sa e1
-        cases h1
-        exact iht b a' hs _ r s1 e2
+        have g := ihs a R1 e σ _ sa e1
+        obtain ⟨b, hb, sb⟩ := g
+        simp only [hb] at hs
+        cases e3 : step t b with
+        | none => simp [e3] at hs
+        | some R2 =>
+          simp only [e3, Option.some.injEq] at hs; subst hs
+          have g2 := iht b R2 e3 σ' r sb e2
+          cases r with
+          | ok σ2 => exact g2
+          | ret σ2 v => cases v <;> exact joinB_sound_r g2
+          | fail => exact g2
   | ite g t e iht ihe =>
-    intro a a' hs σ r sa ex
+    intro a R hs σ r sa ex
     cases g with
     | other =>
       simp only [step] at hs
       cases e1 : step t a with
-      | none => simp [e1, joinO] at hs
-      | some b1 =>
+      | none => simp [e1] at hs
+      | some R1 =>
         cases e2 : step e a with
-        | none => simp [e1, e2, joinO] at hs
-        | some b2 =>
-          simp only [e1, e2, joinO, Option.some.injEq] at hs; subst hs
+        | none => simp [e1, e2] at hs
+        | some R2 =>
+          simp only [e1, e2, Option.some.injEq] at hs; subst hs
           cases ex with
-          | iteT _ _ _ _ et =>
-            obtain ⟨σ', h1, s1⟩ := iht a b1 e1 σ r sa et
-            exact ⟨σ', h1, join_sound_l s1⟩
-          | iteE _ _ _ _ ee =>
-            obtain ⟨σ', h1, s1⟩ := ihe a b2 e2 σ r sa ee
-            exact ⟨σ', h1, join_sound_r s1⟩
+          | iteT _ _ _ _ et => exact good_join_l (iht a R1 e1 σ r sa et)
+          | iteE _ _ _ _ ee => exact good_join_r (ihe a R2 e2 σ r sa ee)
     | nz n =>
       simp only [step] at hs
       cases e1 : step t { a with pos := n :: a.pos } with
-      | none => simp [e1, joinO] at hs
-      | some b1 =>
+      | none => simp [e1] at hs
+      | some R1 =>
         cases e2 : step e ⟨mapVals (fun v => if v = .guarded n then .ok else v) a.objs, a.pos⟩ with
-        | none => simp [e1, e2, joinO] at hs
-        | some b2 =>
-          simp only [e1, e2, joinO, Option.some.injEq] at hs; subst hs
+        | none => simp [e1, e2] at hs
+        | some R2 =>
+          simp only [e1, e2, Option.some.injEq] at hs; subst hs
           cases ex with
           | iteNzT _ _ _ _ _ hn et =>
             have st : Sat h { a with pos := n :: a.pos } σ := by
@@ -368,8 +492,7 @@ theorem step_sound (h : Nat → Nat) :
               rcases hm with hm | hm
               · subst hm; exact hn
               · exact sa.2 m hm
-            obtain ⟨σ', h1, s1⟩ := iht _ b1 e1 σ r st et
-            exact ⟨σ', h1, join_sound_l s1⟩
+            exact good_join_l (iht _ R1 e1 σ r st et)
           | iteNzE _ _ _ _ _ hz ee =>
             have se : Sat h ⟨mapVals (fun v => if v = .guarded n then .ok else v) a.objs, a.pos⟩ σ := by
               refine ⟨fun x => ?_, sa.2⟩
@@ -384,48 +507,53 @@ theorem step_sound (h : Nat → Nat) :
                 split
                 · next hw => subst hw; simp only [satV] at *; exact sx hz
                 · exact sx
-            obtain ⟨σ', h1, s1⟩ := ihe _ b2 e2 σ r se ee
-            exact ⟨σ', h1, join_sound_r s1⟩
+            exact good_join_r (ihe _ R2 e2 σ r se ee)
   | loop b ih =>
-    intro a a' hs σ r sa ex
+    intro a R hs σ r sa ex
     simp only [step] at hs
     -- whichever candidate was returned, it is a post-fixpoint containing `a`
-    have key : ∃ rb, step b a' = some rb ∧ rb.le a' = true ∧ Sat h a' σ := by
-      generalize hc : iterN (fun i => match step b i with | some r => a.join (i.join r) | none => AS.top) 3 a = c at hs
+    have key : ∃ c Rb, step b c = some Rb ∧ leO Rb.norm c = true ∧ Sat h c σ ∧
+        R = ⟨some c, Rb.rt, Rb.rf, Rb.ru⟩ := by
+      generalize hc : iterN (fun i => match step b i with
+        | some R => (match R.norm with | some r => a.join (i.join r) | none => a.join i)
+        | none => AS.top) 3 a = c at hs
       cases e : step b c with
       | none => simp [e] at hs
-      | some rc =>
+      | some Rc =>
         simp only [e] at hs
         split at hs
         · next hle =>
-          simp only [Option.some.injEq] at hs; subst hs
+          simp only [Option.some.injEq] at hs
           simp only [Bool.and_eq_true] at hle
-          exact ⟨rc, e, hle.2, le_sound hle.1 sa⟩
+          exact ⟨c, Rc, e, hle.2, le_sound hle.1 sa, hs.symm⟩
         · cases e2 : step b AS.top with
           | none => simp [e2] at hs
-          | some rt =>
-            simp only [e2, Option.some.injEq] at hs; subst hs
-            refine ⟨rt, e2, ?_, sat_top h σ⟩
-            simp [AS.le, AS.top]
-    obtain ⟨rb, hb, hle, sinv⟩ := key
+          | some Rt =>
+            simp only [e2, Option.some.injEq] at hs
+            refine ⟨AS.top, Rt, e2, ?_, sat_top h σ, hs.symm⟩
+            cases Rt.norm <;> simp [leO, AS.le, AS.top]
+    obtain ⟨c, Rb, hb, hle, sinv, hR⟩ := key
+    subst hR
     clear hs sa
     generalize hl : Stm.loop b = s at ex
     induction ex with
-    | loopDone => exact ⟨_, rfl, sinv⟩
+    | loopDone => exact ⟨c, rfl, sinv⟩
     | loopFail _ _ ef =>
       cases hl
-      obtain ⟨_, h1, _⟩ := ih a' rb hb _ _ sinv ef
-      cases h1
+      exact (ih c Rb hb _ _ sinv ef).elim
+    | loopRet _ _ σ' v e1 =>
+      cases hl
+      have g := ih c Rb hb _ _ sinv e1
+      cases v <;> exact g
     | loopStep _ _ σ' _ e1 _ _ ih2 =>
       cases hl
-      obtain ⟨σ2, h1, s1⟩ := ih a' rb hb _ _ sinv e1
-      cases h1
-      exact ih2 (le_sound hle s1) rfl
+      have g := ih c Rb hb _ _ sinv e1
+      exact ih2 (leO_sound hle g) rfl
     | _ => cases hl
 
 /-- What `safe m` buys: from any state in which the object the function is called on respects
     the cache invariant (empty cache for a constructor), NO execution of the skeleton violates
-    an assertion — at each `return` every listed object has an empty or up-to-date signature,
+    an assertion — at each `return` every object in scope has an empty or up-to-date signature,
     and mutable access is only handed out with the cache cleared. -/
 theorem safe_sound (h : Nat → Nat) (m : Method) (hs : safe m = true) (σ : St)
     (hinit : Sat h m.init σ) : ¬ Exec h m.body σ .fail := by
@@ -433,8 +561,6 @@ theorem safe_sound (h : Nat → Nat) (m : Method) (hs : safe m = true) (σ : St)
   unfold safe at hs
   cases e : step m.body m.init with
   | none => simp [e] at hs
-  | some a' =>
-    obtain ⟨_, h1, _⟩ := step_sound h m.body m.init a' e σ _ hinit ex
-    cases h1
+  | some R => exact step_sound h m.body m.init R e σ _ hinit ex
 
 end Vita.C03.Eff
